@@ -168,6 +168,7 @@ type State struct {
 	spawns  map[string]SpawnInfo
 	timeCtr int
 	ghostTerm map[string]*smt.Term
+	uniques map[string][]uniqEnt // unique.Make: canonical handle per (type, value); copy-on-write
 	timers  []TimerRec // time.NewTimer / time.After: fired only when no goroutine can run (see fireTimer)
 }
 
